@@ -102,7 +102,7 @@ def oracle(ctx, info):
             ctx.violation('supplied-score-negative', info.case(result=got), float(feat), truth)
             return
         for r, t in zip(got, truth):
-            if abs(float(feat) - t) > tol * max(1.0, abs(t)):
+            if abs(float(feat) - t) > tol:
                 ctx.violation('supplied-score-differs-from-true-score', info.case(result=got, ranking=r), float(feat), t)
                 return
     else:
@@ -119,7 +119,7 @@ def oracle(ctx, info):
         ctx.violation('kemeny-score-negative', info.case(result=got), float(ks), truth)
         return
     for r, t in zip(got, truth):
-        if abs(float(ks) - t) > tol * max(1.0, abs(t)):
+        if abs(float(ks) - t) > tol:
             ctx.violation('kemeny-score-differs-from-true-score', info.case(result=got, ranking=r), float(ks), t)
             return
     # asking again gives the same number
@@ -177,7 +177,7 @@ def run_kernel(ctx, sh):
                     ctx.violation('bioconsert-kernel-vector-not-dense', dict(case, start=st), fin, None)
                     continue
                 t = refmodel.score_from_table(vec_to_ranking(fin), table)
-                if abs(float(reported) - t) > 1e-6 * max(1.0, abs(t)):
+                if abs(float(reported) - t) > 1e-6:
                     ctx.violation('bioconsert-bookkeeping-differs-from-true-score', dict(case, start=st, final=fin),
                                   float(reported), t)
                 if fin != st:
